@@ -163,6 +163,8 @@ pub struct Shadow {
     pub c12_window_checked: u64,
     pub ebr: crate::ebrmon::EbrMirror,
     /// C12 directed sweep: observed decision for the watched child
+    pub debug_watch: Option<u32>,
+    pub debug_last: u64,
     pub watch_obj: Option<u32>,
     pub watch_decision: Option<(bool, u64)>,
 }
@@ -219,6 +221,8 @@ impl Shadow {
             c12_checked: 0,
             c12_window_checked: 0,
             ebr: crate::ebrmon::EbrMirror::default(),
+            debug_watch: std::env::var("VERIF_WATCH").ok().and_then(|s| s.parse().ok()),
+            debug_last: 0,
             watch_obj: None,
             watch_decision: None,
         }
@@ -374,10 +378,14 @@ impl Shadow {
 
     // ---- events from the payload ----
 
-    fn on_pop_edges(&mut self, id: u64, cells: [usize; 2], extra_word: usize) {
+    fn on_pop_edges(&mut self, id: u64, cells: [usize; 2], extra_word: usize, block: usize, state_addr: usize) {
         let me = crate::sched::my_tid();
         sim().drain_frees(me);
         let o = id as u32;
+        if (o as usize) < self.objs.len() && !self.objs[o as usize].registered {
+            // destructed before the creating call returned (zero-owner bulk constructors)
+            self.register(o, block, state_addr, cells, 0);
+        }
         let (depth, epoch) = match self.last_reclaim_now.take() {
             Some((block, depth, curr)) if block == self.objs[o as usize].addr => (depth as i64, curr as u64),
             _ => (-1, 0),
@@ -558,9 +566,9 @@ pub fn path_name(depth: i64) -> &'static str {
     }
 }
 
-pub fn hook_pop_edges(id: u64, cells: [usize; 2], extra: usize) {
+pub fn hook_pop_edges(id: u64, cells: [usize; 2], extra: usize, block: usize, state_addr: usize) {
     if installed() && crate::sched::my_tid() != crate::sched::NONE {
-        shadow().on_pop_edges(id, cells, extra);
+        shadow().on_pop_edges(id, cells, extra, block, state_addr);
     }
 }
 pub fn hook_drop(id: u64, wcell: usize) {
@@ -580,6 +588,21 @@ impl Monitor for RcMonitor {
     fn on_step(&mut self, tid: usize, site: u32) {
         let sh = shadow();
         sh.ebr.on_step(tid, site);
+        if let Some(w) = sh.debug_watch {
+            // debugging aid (VERIF_WATCH=<object id>): print every change of its count word
+            if let Some(ob) = sh.objs.get(w as usize) {
+                if ob.registered && ob.dealloc == 0 {
+                    let st = read_state(ob.state_addr);
+                    if st != sh.debug_last {
+                        sh.debug_last = st;
+                        eprintln!(
+                            "WATCH #{} before seq {} (t{} {}): strong={} weak={} weaked={} destructed={} stamp={} | tokens strong={} weak={}",
+                            w, sim().seq, tid, crate::sched::site_name(site), st & ST_STRONG_MASK, (st & ST_WEAK_MASK) >> ST_WEAK_SHIFT, (st & ST_WEAKED) != 0, (st & ST_DESTRUCTED) != 0, st >> ST_EPOCH_SHIFT, ob.strong, ob.weak
+                        );
+                    }
+                }
+            }
+        }
     }
 
     fn pre_access(&mut self, tid: usize, site_id: u32, addr: usize, a: usize, b: usize) {
@@ -602,11 +625,22 @@ impl Monitor for RcMonitor {
                     sim().probe("cas_stamp_only_mismatch");
                 }
             }
-            site::INC_STRONG_FA2 | site::INC_WEAK_FA2 => {
-                sh.n_inc_from_zero += 1;
-                sim().probe(if site_id == site::INC_STRONG_FA2 { "inc_strong_from_zero" } else { "inc_weak_from_zero" });
+            site::INC_STRONG_FA2 => {
+                // the CAS of increment_strong: from zero iff the count word shows no strong count
+                if read_state(addr) & ST_STRONG_MASK == 0 && read_state(addr) & ST_DESTRUCTED == 0 {
+                    sh.n_inc_from_zero += 1;
+                    sim().probe("inc_strong_from_zero");
+                }
             }
-            site::NOT_DESTRUCTED_CAS => sim().probe("upgrade_token_path"),
+            site::INC_WEAK_FA2 => {
+                sh.n_inc_from_zero += 1;
+                sim().probe("inc_weak_from_zero");
+            }
+            site::NOT_DESTRUCTED_CAS => {
+                if read_state(addr) & ST_STRONG_MASK == 0 {
+                    sim().probe("upgrade_token_path");
+                }
+            }
             site::DISPOSE_CHILD_CAS => {
                 // the cascade is about to merge stamps into the child's count word; the CAS
                 // succeeds iff the word still equals what the loop iteration loaded
